@@ -41,6 +41,7 @@ fn prog(name: &str, setup: Vec<TOp>, threads: Vec<Vec<TOp>>) -> Arc<Prog> {
         fault_skip: 0,
         pre_wal_puts: 0,
         judge_under_fault: false,
+        fault_partial: 0,
     })
 }
 
@@ -178,6 +179,7 @@ pub fn c06_programs() -> Vec<Arc<Prog>> {
             fault_skip: 0,
             pre_wal_puts: 0,
             judge_under_fault: false,
+            fault_partial: 0,
         })
     };
     let pre = vec![Batch(vec![(0, Some(1)), (1, Some(2))])];
@@ -468,6 +470,7 @@ pub fn c03_programs() -> Vec<Arc<Prog>> {
             fault_skip: 0,
             pre_wal_puts: 0,
             judge_under_fault: false,
+            fault_partial: 0,
         })
     };
     let pre = vec![Put(0, 1, 8), Flush, Put(1, 2, 8), Flush];
@@ -523,6 +526,7 @@ pub fn levels_programs() -> Vec<Arc<Prog>> {
             fault_skip: 0,
             pre_wal_puts: 0,
             judge_under_fault: false,
+            fault_partial: 0,
         })
     };
     vec![
@@ -571,6 +575,7 @@ pub fn c09_programs() -> Vec<Arc<Prog>> {
             fault_skip: 0,
             pre_wal_puts: 0,
             judge_under_fault: false,
+            fault_partial: 0,
         })
     };
     vec![
@@ -648,6 +653,7 @@ pub fn c11_removal_programs() -> Vec<Arc<Prog>> {
             fault_skip: 0,
             pre_wal_puts: 0,
             judge_under_fault: false,
+            fault_partial: 0,
         })
     };
     let l0 = vec![Put(0, 1, 8), Flush, Put(0, 2, 8), Flush, Put(0, 3, 8), Flush, Put(0, 4, 8)];
@@ -715,6 +721,7 @@ pub fn c11_fault_programs() -> Vec<Arc<Prog>> {
             fault_skip: 0,
             pre_wal_puts: 0,
             judge_under_fault: false,
+            fault_partial: 0,
         })
     };
     let big = Cfg::new(4 << 20, 300, 16, true);
@@ -755,6 +762,7 @@ pub fn c11_notfound_programs() -> Vec<Arc<Prog>> {
             fault_skip: 0,
             pre_wal_puts: 0,
             judge_under_fault: false,
+            fault_partial: 0,
         })
     };
     let big = Cfg::new(4 << 20, 300, 16, true);
@@ -805,6 +813,7 @@ pub fn c08_concurrent_programs() -> Vec<Arc<Prog>> {
             fault_skip: 0,
             pre_wal_puts: 0,
             judge_under_fault: true,
+            fault_partial: 0,
         })
     };
     let p = |name: &str, setup: Vec<TOp>, threads: Vec<Vec<TOp>>, fault: (u32, &'static str), budget: Option<u32>| pt(name, setup, threads, fault, budget, None);
@@ -829,7 +838,13 @@ pub fn c08_concurrent_programs() -> Vec<Arc<Prog>> {
         // the compaction loop takes no lock between two entries: filesystem calls are its only
         // scheduling points
         q.fs_switch = true;
-        v.push(Arc::new(q));
+        v.push(Arc::new(q.clone()));
+        // the same, but the failing write has written the first half of its record: whatever is
+        // appended to that manifest afterwards lies behind a torn record
+        let mut h = q;
+        h.name = format!("manifest-write-{}-fails-once-half-written: rotating w+w+w||compact", k);
+        h.fault_partial = 1;
+        v.push(Arc::new(h));
     }
     // a manual compaction is in flight when a writer's WAL append fails (the background error is
     // recorded and the thread waiting in compact_range is woken while the compaction thread works)
@@ -910,6 +925,7 @@ pub fn c02_multiwriter_programs() -> Vec<Arc<Prog>> {
             fault_skip: 0,
             pre_wal_puts: 0,
             judge_under_fault: false,
+            fault_partial: 0,
         })
     };
     let big = Cfg::new(4 << 20, 300, 16, true);
@@ -952,6 +968,7 @@ pub fn c09_fault_programs() -> Vec<Arc<Prog>> {
             fault_skip: 0,
             pre_wal_puts: 0,
             judge_under_fault: false,
+            fault_partial: 0,
         })
     };
     vec![
@@ -993,6 +1010,7 @@ pub fn l0_stop_programs() -> Vec<Arc<Prog>> {
             fault_skip: 0,
             pre_wal_puts: 14,
             judge_under_fault: false,
+            fault_partial: 0,
         })
     };
     vec![
